@@ -1,6 +1,6 @@
 PLAN['C12'] = dict(
     level='exploration',
-    units=std_units('C12', [('asan', 'sdcz', 8000, 100000), ('asan-vb', 'sdcz', 2000, 25000), ('asan-i64', 'sdcz', 1400, 20000)], chunk=100),
+    units=std_units('C12', [('asan', 'sdcz', 12000, 100000), ('asan-vb', 'sdcz', 3000, 25000), ('asan-i64', 'sdcz', 2100, 20000)], chunk=100),
     rule='?gssvx with ConditionNumber = PivotGrowth = YES on five seeded classes: library generator (10 patterns x scaled/graded/integer values), well-conditioned base x diagonal scalings over 10^0..10^14 (10^6 single), '
          'near-singular (row = delta*row + combination of rows; integer matrix with an exact dependency + 2^-k), one dense scaled row/column on a diagonal (n up to 76: 1-norm and inf-norm condition numbers differ up to n^2/2, '
          'oriented so that the norm the driver must not use gives the larger condition number), exactly singular matrices as in C04 (small share); x NC/NR x Trans x Equil x ColPerm x u x tuning x malloc/workspace x nrhs 0..2. '
